@@ -112,3 +112,106 @@ def c05(sc, io):
                         res.append(("C05-fok", "fill-or-kill %s average %s breaches its limit %s" % (o["o"], avg, limit), {"order": o["o"]}))
     return res
 
+
+
+def increments(sc, mi):
+    """independent ledger built from the raw updates: per update index, per runner id -> {price bp: increment cents}.
+    A runner reports increments only once it has been seen ACTIVE before; volume going down is not an increment."""
+    m = sc["markets"][mi]
+    seen = {}
+    out = []
+    for u in m["updates"]:
+        inc = {}
+        if u.get("status") != "CLOSED":
+            for r in u["runners"]:
+                if r.get("status", "ACTIVE") != "ACTIVE":
+                    continue
+                cur = {p: s for p, s in r.get("trd", [])}
+                if r["id"] in seen:
+                    d = {}
+                    for p, s in cur.items():
+                        if p in seen[r["id"]]:
+                            if s - seen[r["id"]][p] > 0:
+                                d[p] = s - seen[r["id"]][p]
+                        else:
+                            d[p] = s
+                    inc[r["id"]] = d
+                else:
+                    inc[r["id"]] = {}
+                seen[r["id"]] = cur
+        else:
+            seen = {}
+        out.append(inc)
+    return out
+
+
+def c06(sc, io):
+    res = []
+    iso = sc["config"].get("isolation", True)
+    nstr = len(sc["strategies"])
+    prev = {}
+    arrival = {}        # (mi, name) -> (update idx of execution, queue ahead cents)
+    cum_elig = {}       # (mi, name) -> eligible increments since execution (cents, both sides)
+    passive = {}        # (mi, name) -> passive fill total, count
+    incs = {mi: increments(sc, mi) for mi in range(len(sc["markets"]))}
+    owner = {}
+    for e in sc["script"]:
+        for a in e["acts"]:
+            if a[0] == "place":
+                owner["o%d" % a[1]] = e["s"]
+    for mi, u, snap in snapshots(sc, io):
+        T = snap["pt"]
+        upd = sc["markets"][mi]["updates"][u]
+        if upd.get("status") == "CLOSED":
+            continue
+        inc = incs[mi][u]
+        new_by_group = {}
+        elig_by_group = {}
+        for o in snap["orders"]:
+            key = (mi, o["o"])
+            fr = [(f[0], BP(f[1]), C(f[2])) for f in o["frags"]]
+            old = prev.get(key, [])
+            prev[key] = fr
+            if o["otype"] != "LIMIT" or o["price"] is None:
+                continue
+            limit, side, sel = BP(o["price"]), o["side"], o["sel"]
+            if key not in arrival and o["placed"] is not None:
+                # executed at the update whose pt == placed; queue = size shown at its price on the side it joins, in the previous book
+                ui = next((k for k, x in enumerate(sc["markets"][mi]["updates"]) if x["pt"] == o["placed"]), None)
+                q = 0
+                if ui is not None and ui > 0:
+                    r = runner_of(sc["markets"][mi]["updates"][ui - 1], sel)
+                    lad = (r["atl"] if side == "BACK" else r["atb"]) if r else []
+                    q = next((s for p, s in lad if p == limit), 0)
+                arrival[key] = (ui, q)
+                cum_elig[key] = 0
+                passive[key] = [0, 0]
+            if len(fr) < len(old):
+                continue
+            new = [f for f in fr[len(old):] if f[0] == T and f[1] == limit]
+            el = {p: v for p, v in inc.get(sel, {}).items() if (side == "BACK" and p >= limit) or (side == "LAY" and p <= limit)}
+            if key in arrival and arrival[key][0] is not None and u >= arrival[key][0]:
+                cum_elig[key] += sum(el.values())
+            if new:
+                tot = sum(f[2] for f in new)
+                passive[key][0] += tot; passive[key][1] += len(new)
+                if o["status"] == "Pending" and o["placed"] is None:
+                    res.append(("C06-arrival", "order %s was filled passively before it was acknowledged" % o["o"], {"order": o["o"], "pt": T}))
+                grp = (owner.get(o["o"], o.get("strategy", 0)) if iso else -1, sel)
+                new_by_group.setdefault(grp, []).append((o["o"], tot, len(new)))
+                g = elig_by_group.setdefault(grp, {})
+                for p, v in el.items():
+                    g[p] = v
+                # queue honoured + halving, cumulative, per order
+                ui, q = arrival.get(key, (None, 0))
+                bound2 = max(0, cum_elig.get(key, 0) - 2 * q) + 2 * passive[key][1]    # in half-cents-ish: 2*fill <= E - 2q + n
+                if 2 * passive[key][0] > bound2:
+                    res.append(("C06-queue", "%s has been filled %s passively, more than half the eligible traded volume %s minus the queue %s ahead of it at arrival"
+                                % (o["o"], passive[key][0], cum_elig.get(key, 0), q), {"order": o["o"], "pt": T, "queue": q, "eligible_traded_both_sides": cum_elig.get(key, 0)}))
+        for grp, fills in new_by_group.items():
+            tot = sum(t for _, t, _ in fills); n = sum(k for _, _, k in fills)
+            el = sum(elig_by_group[grp].values())
+            if 2 * tot > el + n * len(elig_by_group[grp] or {1: 1}):
+                res.append(("C06-double-count", "orders %s together were filled %s out of one update whose eligible traded volume is %s (both sides)" % ([f[0] for f in fills], tot, el),
+                            {"pt": T, "market": mi, "group": list(grp), "fills": fills, "eligible": elig_by_group[grp]}))
+    return res
